@@ -15,10 +15,11 @@ def run(chk, replay=None):
         chk.only(replay)
     want = cc.CLAUSES["C03"]
     cases = cc.spec_cases(chk, "c03mc")
-    cc.replay(chk, cases, want)
+    ev1 = cc.replay(chk, cases, want)
     s = [c for c in cases if c["ph"] == "ata" and c["ctor"] and c["dinlen"]]
     chk.ev.sample({"spec_case": {k: s[0][k] for k in ("cls", "a", "dinlen", "doutlen")}})
     events = record_random(chk, cases, 40 if chk.quick else 400)
+    events = ev1 + events
     cc.judge(chk, events, want, "c03tr")
     chk.ev.sample({"event": events[len(events) // 3]})
     chk.ev.cov["rule"] = ("every constructible MC_T10Cdb case (42 classes, all ATA t_length/byte_block/t_type/t_dir "
